@@ -74,7 +74,7 @@ func s2RunSteps(c *fw.Case, prop string, p *engine.Profile, steps []engine.Step)
 	if steps == nil {
 		steps = engine.GenScenario(c.Rng.Fork("scenario"), p, w.Schema)
 	}
-	e := &engine.Exec{C: c, W: w, P: p, Steps: steps, Opts: opts}
+	e := &engine.Exec{C: c, W: w, P: p, Steps: steps, Opts: opts, IdleCheck: p.IdleCheck}
 	if p.RejectCode != codes.OK {
 		for _, d := range w.Devices {
 			d.SetRejectCode(p.RejectCode)
